@@ -1,4 +1,4 @@
 (* extraction of the glob model and of the declarative spec (C17 correspondence) *)
 From IT Require Import spec.GlobSpec.
 From Coq Require Import ExtrOcamlBasic.
-Extraction "glob.ml" gmatch_x spec_match pattern_aligned set_filter spec_filter.
+Extraction "glob.ml" gmatch_x spec_match pattern_aligned utf8_valid set_filter spec_filter.
